@@ -156,6 +156,62 @@ _CLASS = {"index": "bounds", "index_mut": "bounds", "split_at": "bounds", "split
           "DivisionByZero": "div-zero", "RemainderByZero": "div-zero"}
 
 
+_CLOSURE_CTX = {}
+
+
+def closure_context(prog):
+    """closure def path -> (owner function, captured operand trees in the owner, receiver of the iterator adapter the
+    closure is handed to or None).  The owner is the function whose body builds the closure (after inlining)."""
+    k = id(prog)
+    if k in _CLOSURE_CTX:
+        return _CLOSURE_CTX[k]
+    ctx = {}
+    for p, f in prog.fns.items():
+        R = None
+        made = {}
+        for bi in f.cfg():
+            for st in f.blocks[bi]["stmts"]:
+                rv = st["rv"]
+                if rv["k"] == "aggregate" and rv["kind"].get("agg") == "closure" and not st["place"]["proj"]:
+                    R = R or Resolver(f, max_depth=16)
+                    made[st["place"]["local"]] = (rv["kind"]["def"], tuple(R.operand(o) for o in rv["ops"]))
+        if not made:
+            continue
+        for n, (d, ops) in made.items():
+            recv = None
+            locs, sinks = flows(f, n)
+            for sb, what, t in sinks:
+                if what == "call" and len(t["args"]) >= 2:
+                    a1 = op_place(t["args"][1])
+                    if a1 is not None and a1["local"] in locs:
+                        recv = R.operand(t["args"][0])
+                        break
+            ctx[d] = (f, ops, recv)
+    _CLOSURE_CTX[k] = ctx
+    return ctx
+
+
+def translate_closure_tree(prog, g, t, depth=0):
+    """express a value tree of a closure body in terms of the function that owns the closure: captured variables
+    become the owner's trees, the closure's item parameter becomes `next(<adapter receiver>)`"""
+    import names as nm
+    ctx = closure_context(prog)
+    if g.kind != "Closure" or g.path not in ctx or depth > 3:
+        return g, t
+    owner, ops, recv = ctx[g.path]
+    cap = nm._capture_index(g)
+
+    def sub(x):
+        if not isinstance(x, tuple) or not x:
+            return x
+        if x[0] == "field" and isinstance(x[1], tuple) and strip(x[1]) == ("param", 1) and x[2] in cap and cap[x[2]] < len(ops):
+            return ops[cap[x[2]]]
+        if x[0] == "param" and x[1] >= 2 and recv is not None:
+            return ("ok", ("call", "<I as std::iter::Iterator>::next", (recv,), -1))
+        return tuple(sub(a) if isinstance(a, tuple) else a for a in x)
+    return translate_closure_tree(prog, owner, sub(t), depth + 1)
+
+
 def coarse_key(site):
     """function | class of the panic condition | set of value sources of the operands.  Robust against re-spelling the
     same computation (x[n..] vs x.split_at(n).1, temporaries, statement order) but changes when the condition involves
@@ -210,13 +266,19 @@ def coarse_key(site):
             for a in t[1:]:
                 if isinstance(a, tuple) and a and isinstance(a[0], str):
                     walk(a, depth + 1)
+    owner = f
     for o in site.operands[:3]:
         try:
-            walk(strip_deep(R.operand(o)))
+            t0 = R.operand(o)
+            if f.kind == "Closure" and getattr(f, "program", None) is not None:
+                owner, t0 = translate_closure_tree(f.program, f, t0)
+                f_walk = owner
+            walk(strip_deep(t0))
         except RecursionError:
             leaves.add("?")
     what = site.what if site.kind == "assert" else _last_segment(site.what)
     cls = _CLASS.get(what, what)
+    f = owner
     fn = short(f.path) if "closure" not in f.path else f.path.split("::", 1)[-1]
     return "%s | %s | {%s}" % (fn, cls, ", ".join(sorted(leaves)))
 
